@@ -52,7 +52,7 @@ MANIFEST = dict(
               "the event log",
 )
 FLOORS = {"C12.1": 10, "C12.2": 14, "C12.3": 80, "C12.4": 10, "C12.5": 4,
-          "C12.6": 2, "C12.7": 12}
+          "C12.6": 2, "C12.7": 12, "C12.8": 6}
 
 PE = "evo.core.metrics.PE"
 ST = "evo.core.metrics.StatisticsType"
@@ -243,6 +243,11 @@ def check(ctx):
     n += import_rules(ctx, "c02", ("C02.6",), "C12.7",
                       pred=lambda o: o.key.endswith(":unit"))
     ctx.require(n >= 12, "C12.7: unit instances not found")
+    # "the stored trajectories are restricted to the first pose and the pair
+    # end poses" is done with reduce_to_ids: it must index every view with
+    # the given ids on every path (instances of C08.3)
+    n = import_rules(ctx, "c08", ("C08.3",), "C12.8")
+    ctx.require(n >= 6, "C12.8: reduce_to_ids instances not found")
 
 
 def _units(ctx):
